@@ -3116,6 +3116,9 @@ def groupby_scan(
     # avoid some roundoff error when we can.
     if by_.shape[-1] == 1 or by_.shape == grp_shape:
         array = array.astype(agg.dtype)
+        if agg.name == "nancumsum" and array.dtype.kind in "fc":
+            # every group has a single member: the scan is the identity, except that NaN counts as 0
+            array = np.where(isnull(array), 0, array)
         if cast_to is not None:
             array = array.astype(cast_to)
         return array
